@@ -118,11 +118,12 @@ BOND_TEXT = {1: "", 2: "=", 3: "#", 1.5: ""}
 
 
 def spell(mol, rng, label_mode=None, explicit_single=0.05, variants=True,
-          ring_sym_side=None, mix_labels=False, roots=None):
+          ring_sym_side=None, mix_labels=False, roots=None, vrng=None):
     """Return (smiles, order, tags, marks): order[k] = gmol index of the k-th
     written atom; tags {gidx: '@'|'@@'}; marks {(gsrc,gdst): char written at
     src's side}."""
     adj = mol.adj()
+    vrng = vrng or rng    # separate stream for equivalent-spelling choices (C10)
     label_mode = label_mode or rng.choice(["smallest", "fresh", "random", "percent"])
     order = []
     tags = {}
@@ -161,7 +162,7 @@ def spell(mol, rng, label_mode=None, explicit_single=0.05, variants=True,
     def plain_bond_text(i, j):
         o = mol.bonds[(min(i, j), max(i, j))]
         if o == 1.5:
-            return ":" if (variants and rng.random() < 0.03) else ""
+            return ":" if (variants and vrng.random() < 0.03) else ""
         if o == 1:
             if mol.atoms[i].aromatic and mol.atoms[j].aromatic:
                 return "-"
@@ -217,7 +218,7 @@ def spell(mol, rng, label_mode=None, explicit_single=0.05, variants=True,
             if a.chiral:
                 tag = rng.choice(["@", "@@"])
                 tags[v] = tag
-            text.append(atom_text(a, rng, tag, variants))
+            text.append(atom_text(a, vrng, tag, variants))
 
         def write_bond_symbol(i, j, ring=False, closing=False):
             key = (min(i, j), max(i, j))
